@@ -136,11 +136,21 @@ class Rules:
         self.repo = repo
         self.chk = chk
 
-    def run(self, name, fn, *a, **k):
+    def run(self, name, fn, *a, soft_for=(), **k):
+        """soft_for: functions this rule is about. When every one of them was proven equal (modulo renaming, inlining ...)
+        to its reviewed reference form, an unrecognised idiom inside the rule is a limitation of the rule's matcher,
+        not of the code: the rule's obligations are implied by the equivalence and the rule is skipped."""
+        chk = self.chk._chk if isinstance(self.chk, Soft) else self.chk
         try:
             fn(*a, **k)
         except AnalysisError as e:
-            self.chk.error(name, str(e))
+            quals = [self.repo.func(q).qual for q in soft_for if self.repo.has_func(q)]
+            if quals and all(q in chk.equiv for q in quals):
+                chk.soft_skipped.add(name)
+                chk.ob(name, self.repo.func(soft_for[0]), None, 'matcher of rule %s does not recognise this (renamed / restructured) form: %s; '
+                       'its obligations are implied by the proven equality with the reference form' % (name, e), True, construct='implied ' + name, nontrivial=False)
+            else:
+                chk.error(name, str(e))
         except Exception as e:  # a crash of one rule is an analysis error of that rule, never a verdict
             import traceback
             tb = traceback.extract_tb(e.__traceback__)[-1]
